@@ -30,6 +30,7 @@ def required_cells(tier):
     req["shape:3x4/consistent"] = 100
     req["input:identical-rows-share-one-list"] = 50
     req["entries:wide-range"] = 5000
+    req["history:solution-kept-across-another-solve"] = 500
     for r, c, _ in (SHAPES_Q if tier == "quick" else SHAPES_T):
         for st in ("consistent", "inconsistent"):
             req["shape:%dx%d/%s" % (r, c, st)] = 2
@@ -63,7 +64,11 @@ def cases(rng, budget, widx, nworkers, tier):
             yield {"m": m, "t": "float", "sampled": "wide"}
         else:
             m = [[rng.randint(-big, big) for _ in range(cls)] for _ in range(rws)]
-            yield {"m": m, "t": rng.choice(("int", "int", "float", "Fraction")), "sampled": "wide"}
+            c_ = {"m": m, "t": rng.choice(("int", "int", "float", "Fraction")), "sampled": "wide"}
+            if rng.random() < 0.25:
+                # a solution of another system of the same shape is obtained first and kept; it is asked again after this one
+                c_["prev"] = [[rng.randint(-big, big) for _ in range(cls)] for _ in range(rws)]
+            yield c_
     # sampled 3x4 systems, half of them with zero columns forced (where pivots have to skip columns)
     for _ in range((20000 if tier == "thorough" else 12000) // nworkers):
         m = [[rng.randint(-2, 2) for _ in range(4)] for _ in range(3)]
@@ -141,10 +146,29 @@ def judge(case):
         rows = _alias(rows)
         if len(set(map(id, rows))) < len(rows):
             mu.cell("input:identical-rows-share-one-list")
+    kept = None
+    if case.get("prev"):
+        try:
+            s0 = G.solve(_conv(case["prev"], t))
+            a0 = [F(1, 2) if t == "Fraction" else 0.5] * (s0.varargs if bool(s0) else 0)
+            kept = (s0, bool(s0), s0.varargs if bool(s0) else None, s0(*a0) if bool(s0) else None, a0)
+        except Exception:
+            kept = None
     sol, exc, _ = M.call(G.solve, rows, pure=False)
     if exc is not None:
         mu.fail("solve-raises-%s/%s" % (M.classify_exc(exc), prof), "solve(%r) raised %s: %s" % (m, type(exc).__name__, exc))
         return mu.result(nontrivial=nontrivial)
+    if kept is not None:
+        mu.cell("history:solution-kept-across-another-solve")
+        s0, b0, v0, r0, a0 = kept
+        try:
+            now = (bool(s0), s0.varargs if bool(s0) else None, s0(*a0) if bool(s0) else None)
+        except Exception as e:
+            now = ("raises", repr(e), None)
+        if now != (b0, v0, r0):
+            mu.fail("kept-solution-changed-by-a-later-solve/%s" % prof, "solve(%r) gave (solvable, free, value) = %r; after solve(%r) the same Solution object says %r" % (
+                case["prev"], (b0, v0, r0), m, now))
+            return mu.result(nontrivial=nontrivial)
     try:
         truth = bool(sol)
     except Exception as e:
